@@ -6,6 +6,7 @@ CONSTANT Scripts
 VARIABLE sc
 Do(a) == CASE a[1] = "connect" -> Connect(a[2], a[3])
            [] a[1] = "reorg"   -> Reorg(a[2], a[3])
+           [] a[1] = "swap"    -> Swap(a[2])
            [] a[1] = "manual"  -> ManualPrune(a[2])
            [] a[1] = "auto"    -> AutoPrune
            [] a[1] = "lock"    -> UpdateLock(a[2], a[3])
